@@ -5,7 +5,13 @@ import json, os, re, subprocess, sys, time
 
 VERIF = os.environ.get("VERIF_DIR", "/verif")
 tier = sys.argv[1] if len(sys.argv) > 1 else "quick"
-seed = int(os.environ.get("VERIF_SEED", "1"))
+try:
+    seed = int(os.environ.get("VERIF_SEED", "1"))
+    if not 0 <= seed < 2**64:
+        seed = 1
+except ValueError:
+    # like simcheck: a seed that is no unsigned 64-bit integer falls back to the default
+    seed = 1
 replay = None
 if tier == "--replay":
     replay = json.load(open(sys.argv[2]))
